@@ -59,4 +59,26 @@ example : ((clusterIndels 30000
     [⟨false, 1, 100, 200, [7], 1, 2, 5000, 1⟩, ⟨false, 2, 150, 250, [8], 1, 2, 5000, 1⟩,
      ⟨false, 2, 160, 300, [9], 1, 2, 3000, 1⟩]).map (·.count)) = [1, 2] := by decide +kernel
 
+/-- the WRITTEN FILE (`write_indel_file`: both types sorted, clustered and merged): the Count column
+    sums to the number of calls found -/
+theorem C20_file_count (blur : Int) (ins dels : List Call)
+    (hi : ∀ c ∈ ins, c.count = 1) (hd : ∀ c ∈ dels, c.count = 1) :
+    ((indelFile blur ins dels).map (·.count)).sum = ins.length + dels.length :=
+  Coma.Proofs.indelFile_count blur ins dels hi hd
+
+/-- every query id of every call found (insertions and deletions) appears in exactly one line of the file -/
+theorem C20_file_ids (blur : Int) (ins dels : List Call) :
+    ((indelFile blur ins dels).flatMap (·.qids)).Perm ((ins ++ dels).flatMap (·.qids)) :=
+  Coma.Proofs.indelFile_ids blur ins dels
+
+/-- a line of the file is a cluster of one type -/
+theorem C20_file_types (blur : Int) (ins dels : List Call) :
+    ∀ c ∈ indelFile blur ins dels,
+      c ∈ clusterIndels blur (sortCalls dels) ∨ c ∈ clusterIndels blur (sortCalls ins) :=
+  Coma.Proofs.indelFile_types blur ins dels
+
+/-- non-vacuity: insertions only -/
+example : ((indelFile 30000 [⟨true, 1, 100, 200, [7], 1, 2, -5000, 1⟩, ⟨true, 1, 150, 250, [8], 1, 2, -5000, 1⟩] []).map (·.count)) = [2] := by
+  decide +kernel
+
 end Coma.Props
